@@ -41,3 +41,21 @@ run delattr_nocheck spec_classes/methods/core.py '                value=prepare_
                 inplace=True,==>                value=prepare_attr_value(attr_spec, self, default),
                 inplace=True,
                 type_check=False,'
+# pre-fix library: reverse-apply a `fix:` commit of /repo in the scratch worktree
+runrev() {
+  name=$1; commit=$2
+  wt=/tmp/wt-c03-$name
+  git -C /repo worktree remove --force $wt >/dev/null 2>&1
+  git -C /repo worktree add -q $wt HEAD 2>&1 | grep -v conda
+  cp /repo/spec_classes/_version.py $wt/spec_classes/
+  ( cd $wt && git show $commit -- spec_classes | git apply -R ) || { echo "$name: cannot reverse-apply $commit"; return; }
+  ( cd $V && VERIF_REPO=$wt VERIF_SEED=${VERIF_SEED:-0} timeout 1500 bin/check C03 $tier > /tmp/c03-mut-$name.log 2>&1 )
+  rc=$?
+  conc=$(grep '^VIOLATION' /tmp/c03-mut-$name.log | grep -vc 'no-failing-input-found')
+  first=$(grep -m1 '^# C03 violated' /tmp/c03-mut-$name.log | cut -c1-150)
+  echo "$name rc=$rc concrete=$conc :: $first"
+  git -C /repo worktree remove --force $wt >/dev/null 2>&1
+}
+# MethodDescriptor.__get__ dissolving a helper onto the class it was looked up through
+# (subclass re-annotating an inherited collection got the parent's element helper)
+runrev prefix_5accf98 5accf98
